@@ -1,29 +1,36 @@
 """Reference splitter for the `fakesnow` command line (property C20).
 
-Written from argparse's own grammar (Python 3.12 `ArgumentParser._parse_optional` / `consume_optional`) applied to
-fakesnow's option table, *not* from fakesnow.cli:
+Written from argparse's own grammar (Python 3.12 `ArgumentParser._parse_optional` / `consume_optional`) applied to an
+*option table*, *not* from fakesnow.cli.  The table says, per option, its spellings, whether it takes one value or
+none, and its role:
 
-    -d VALUE | --db_path VALUE | --db_path=VALUE | -dVALUE        (store; may be repeated, last one wins)
-    -m MOD   | --module MOD    | --module=MOD    | -mMOD          (names the target module)
-    -h | --help
-    PATH                                                          (first positional: names the target script)
+    own      fakesnow's own option, e.g.  -d VALUE | --db_path VALUE | --db_path=VALUE | -dVALUE   (value, repeatable)
+                                          -n | --no_create                                         (no value)
+    module   names the target module:     -m MOD | --module MOD | --module=MOD | -mMOD
+    help     prints and exits:            -h | --help
+    PATH     first positional: names the target script
 
-and from the one rule that makes the command a *launcher* (the same rule as `python [opts] (-m mod | script) args`):
-fakesnow's own options are the leading ones; the first `-m/--module` option or the first positional names the target
+DEFAULT_TABLE is the hand-written table of today's fakesnow (db_path, module, help); table_from_parser(parser) derives
+a table from any argparse parser (the check uses it on fakesnow.cli.arg_parser() at run time, so that an option the
+parser gains is exercised; which option names the module - dest "module" - is the one thing taken on trust).
+
+The one rule that makes the command a *launcher* (the same rule as `python [opts] (-m mod | script) args`):
+fakesnow's own options are the leading ones; the first module option or the first positional names the target
 and everything after the target specification belongs to the target, verbatim and in order.
 
-parse(tokens) -> Parsed(status, why, db_paths, opt_forms, target, target_form, targs)
+parse(tokens, table) -> Parsed(status, why, opts, opt_forms, target, target_form, targs)
 
 status
   "ok"           well-formed. target is None (nothing to run), ("path", p) or ("module", m); targs is what the
-                 target must receive as sys.argv[1:]; db_paths the values given to -d/--db_path in order.
-  "help"         -h/--help among fakesnow's own options: argparse prints help and exits, no target runs.
+                 target must receive as sys.argv[1:]; opts the own options given, in order, as (dest, value|True).
+  "help"         a help option among fakesnow's own options: argparse prints help and exits, no target runs.
   "malformed"    argparse would exit with a usage error on fakesnow's part of the line (unknown option among the
                  leading options; an option that needs a value is last or is followed by an option-like token;
-                 --help=VALUE).
+                 --flag=VALUE for an option without value).
   "unspecified"  forms whose treatment differs between argparse versions or is not fixed by the option table:
-                 `--` followed by an option-like token, `-d=VALUE` / `-m=VALUE`, `-hXYZ` clusters. Nothing specific
-                 is expected.
+                 `--` followed by an option-like token, `-d=VALUE` / `-m=VALUE`, clusters starting with a short
+                 option that takes no value (`-hXYZ`, `-nX`), options with nargs other than one value / none.
+                 Nothing specific is expected.
 
 Token classification (argparse `_parse_optional`, parser without negative-number-like options): a token is an
 *argument* if it is empty, does not start with '-', is exactly '-', looks like a negative number, or contains a
@@ -35,11 +42,69 @@ from __future__ import annotations
 import re
 from typing import NamedTuple
 
-LONG = {"--db_path": "db_path", "--module": "module", "--help": "help"}
-SHORT = {"-d": "db_path", "-m": "module", "-h": "help"}
 _NEGATIVE_NUMBER = re.compile(r"^-\d+$|^-\d*\.\d+$")
 
-# names of the concrete forms (used by the check's classifier)
+
+class Opt(NamedTuple):
+    dest: str
+    strings: tuple  # option strings, as declared
+    takes_value: bool | None  # True: exactly one value; False: none; None: something else (not modelled)
+    role: str  # "own" | "module" | "help"
+
+    @property
+    def shorts(self):
+        return tuple(s for s in self.strings if not s.startswith("--"))
+
+    @property
+    def longs(self):
+        return tuple(s for s in self.strings if s.startswith("--"))
+
+
+class Table(NamedTuple):
+    options: tuple  # of Opt, in declaration order
+    positionals: tuple = ("path", "targs")
+    allow_abbrev: bool = True
+
+    def by_string(self):
+        return {s: o for o in self.options for s in o.strings}
+
+    def describe(self):
+        return [
+            {"dest": o.dest, "strings": list(o.strings), "takes_value": o.takes_value, "role": o.role} for o in self.options
+        ] + [{"positionals": list(self.positionals), "allow_abbrev": self.allow_abbrev}]
+
+
+# the table of fakesnow's command line as of writing (cross-check only; the check derives its table at run time)
+DEFAULT_TABLE = Table(
+    (
+        Opt("help", ("-h", "--help"), False, "help"),
+        Opt("db_path", ("-d", "--db_path"), True, "own"),
+        Opt("module", ("-m", "--module"), True, "module"),
+    )
+)
+
+
+def table_from_parser(parser) -> Table:
+    """Option table of an argparse parser (walks parser._actions)."""
+    import argparse
+
+    opts, pos = [], []
+    for a in parser._actions:  # noqa: SLF001
+        if not a.option_strings:
+            pos.append(a.dest)
+            continue
+        if isinstance(a, (argparse._HelpAction, argparse._VersionAction)):  # noqa: SLF001
+            role = "help"
+        elif a.dest == "module":
+            role = "module"
+        else:
+            role = "own"
+        takes = True if a.nargs is None else (False if a.nargs == 0 else None)
+        opts.append(Opt(a.dest, tuple(a.option_strings), takes, role))
+    return Table(tuple(opts), tuple(pos), bool(getattr(parser, "allow_abbrev", True)))
+
+
+# names of the concrete forms of today's options (used by the check's classifier and the end-to-end runs)
 F_SHORT_SEP = "-d V"
 F_LONG_SEP = "--db_path V"
 F_LONG_EQ = "--db_path=V"
@@ -55,56 +120,65 @@ T_SHORT_ATT = "-mMOD"
 class Parsed(NamedTuple):
     status: str
     why: str
-    db_paths: tuple
-    opt_forms: tuple  # forms of fakesnow's own leading options, in order (db_path forms and "--")
+    opts: tuple  # own options given, in order: (dest, value | True); the terminator is ("--", None)
+    opt_forms: tuple  # their spellings, parallel to opts: "-d V", "--db_path V", "--db_path=V", "-dV", "-n", "--"
     target: tuple | None
     target_form: str | None
     targs: tuple
 
     @property
+    def db_paths(self):
+        return tuple(v for d, v in self.opts if d == "db_path")
+
+    @property
     def db_path(self):
         return self.db_paths[-1] if self.db_paths else None
 
+    def form_of_last(self, dest):
+        return next((f for (d, _v), f in zip(reversed(self.opts), reversed(self.opt_forms)) if d == dest), "none")
 
-def _long_match(name: str):
-    """exact long option or unique abbreviation (argparse allow_abbrev=True) -> canonical long option | None | 'ambiguous'"""
-    if name in LONG:
+
+def _long_match(name: str, table: Table):
+    """exact long option or unique abbreviation -> canonical long option string | None | 'ambiguous'"""
+    longs = [s for o in table.options for s in o.longs]
+    if name in longs:
         return name
-    if len(name) < 3:
+    if len(name) < 3 or not table.allow_abbrev:
         return None
-    hits = [lo for lo in LONG if lo.startswith(name)]
+    hits = [lo for lo in longs if lo.startswith(name)]
     if len(hits) == 1:
         return hits[0]
     return "ambiguous" if hits else None
 
 
-def match_option(tok: str):
-    """-> (dest, spelling kind, explicit value | None) for a token that names one of fakesnow's options, else None.
+def match_option(tok: str, table: Table = DEFAULT_TABLE):
+    """-> (Opt, canonical option string, spelling kind, explicit value | None) for a token naming an option, else None.
     spelling kind: 'short' | 'long' | 'long=' | 'short-attached' | 'short=' ."""
-    if tok in SHORT:
-        return SHORT[tok], "short", None
+    by = table.by_string()
+    if tok in by and not tok.startswith("--"):
+        return by[tok], tok, "short", None
     if tok.startswith("--"):
         name, eq, val = tok.partition("=")
-        lo = _long_match(name)
+        lo = _long_match(name, table)
         if lo in (None, "ambiguous"):
             return None
-        return LONG[lo], ("long=" if eq else "long"), (val if eq else None)
-    if len(tok) > 2 and tok[:2] in SHORT:
+        return by[lo], lo, ("long=" if eq else "long"), (val if eq else None)
+    if len(tok) > 2 and tok[:2] in by:
         if tok[2] == "=":
-            return SHORT[tok[:2]], "short=", tok[3:]
-        return SHORT[tok[:2]], "short-attached", tok[2:]
+            return by[tok[:2]], tok[:2], "short=", tok[3:]
+        return by[tok[:2]], tok[:2], "short-attached", tok[2:]
     return None
 
 
-def kind(tok: str) -> str:
+def kind(tok: str, table: Table = DEFAULT_TABLE) -> str:
     """'A' argument, 'O' option-like, '--' terminator."""
     if tok == "--":
         return "--"
     if not tok or tok[0] != "-" or tok == "-":
         return "A"
-    if match_option(tok) is not None:
+    if match_option(tok, table) is not None:
         return "O"
-    if tok.startswith("--") and _long_match(tok.partition("=")[0]) == "ambiguous":
+    if tok.startswith("--") and _long_match(tok.partition("=")[0], table) == "ambiguous":
         return "O"
     if _NEGATIVE_NUMBER.match(tok):
         return "A"
@@ -113,62 +187,76 @@ def kind(tok: str) -> str:
     return "O"
 
 
-_DB_FORM = {"short": F_SHORT_SEP, "long": F_LONG_SEP, "long=": F_LONG_EQ, "short-attached": F_SHORT_ATT}
-_MOD_FORM = {"short": T_SHORT_SEP, "long": T_LONG_SEP, "long=": T_LONG_EQ, "short-attached": T_SHORT_ATT}
+def form_name(canon: str, spelling: str, value_word: str) -> str:
+    return {
+        "short": f"{canon} {value_word}",
+        "long": f"{canon} {value_word}",
+        "long=": f"{canon}={value_word}",
+        "short-attached": f"{canon}{value_word}",
+    }[spelling]
 
 
-def parse(tokens) -> Parsed:
+def parse(tokens, table: Table = DEFAULT_TABLE) -> Parsed:
     toks = list(tokens)
     n = len(toks)
-    dbs: list = []
+    opts: list = []
     forms: list = []
 
     def out(status, why="", target=None, tform=None, targs=()):
-        return Parsed(status, why, tuple(dbs), tuple(forms), target, tform, tuple(targs))
+        return Parsed(status, why, tuple(opts), tuple(forms), target, tform, tuple(targs))
 
     i = 0
     while i < n:
         t = toks[i]
-        k = kind(t)
+        k = kind(t, table)
         if k == "--":
+            opts.append(("--", None))
             forms.append(F_TERMINATOR)
             if i + 1 >= n:
                 return out("ok", "option terminator, nothing follows")
-            if kind(toks[i + 1]) != "A":
+            if kind(toks[i + 1], table) != "A":
                 return out("unspecified", "token after '--' looks like an option")
             return out("ok", "", ("path", toks[i + 1]), T_PATH, toks[i + 2 :])
         if k == "A":
             return out("ok", "", ("path", t), T_PATH, toks[i + 1 :])
-        m = match_option(t)
+        m = match_option(t, table)
         if m is None:
             return out("malformed", f"unrecognized option {t!r} among fakesnow's own options")
-        dest, spelling, explicit = m
+        opt, canon, spelling, explicit = m
+        if opt.takes_value is None:
+            return out("unspecified", f"option {canon} takes neither exactly one value nor none")
         if spelling == "short=":
             return out("unspecified", "short option with '=' (argparse version dependent)")
-        if dest == "help":
+        if not opt.takes_value:
             if explicit is not None and spelling == "short-attached":
-                # argparse re-reads the tail of `-hXYZ` as further single-dash options
-                return out("unspecified", "short option cluster starting with -h")
+                # argparse re-reads the tail of `-hXYZ` / `-nXYZ` as further single-dash options
+                return out("unspecified", "cluster starting with a short option that takes no value")
             if explicit is not None:
-                return out("malformed", "--help takes no value")
-            return out("help", "help requested")
+                return out("malformed", f"{canon} takes no value")
+            if opt.role == "help":
+                return out("help", "help requested")
+            opts.append((opt.dest, True))
+            forms.append(canon)
+            i += 1
+            continue
+        if opt.role == "help":
+            return out("unspecified", "help option with a value")
         if explicit is None:
-            if i + 1 >= n or kind(toks[i + 1]) != "A":
+            if i + 1 >= n or kind(toks[i + 1], table) != "A":
                 return out("malformed", f"{t} expects one argument")
             value = toks[i + 1]
             i += 2
         else:
             value = explicit
             i += 1
-        if dest == "db_path":
-            dbs.append(value)
-            forms.append(_DB_FORM[spelling])
-        else:
-            return out("ok", "", ("module", value), _MOD_FORM[spelling], toks[i:])
+        if opt.role == "module":
+            return out("ok", "", ("module", value), form_name(canon, spelling, "MOD"), toks[i:])
+        opts.append((opt.dest, value))
+        forms.append(form_name(canon, spelling, "V"))
     return out("ok", "no target named")
 
 
-def target_specs(tokens):
+def target_specs(tokens, table: Table = DEFAULT_TABLE):
     """Every (index_after_spec, target) at which some token (pair) of the line could name a target, whatever precedes
     it. Used only for the weak demand on malformed/unspecified lines: *if* something was run, it must have received
     exactly the tokens following one of its possible specifications."""
@@ -176,10 +264,45 @@ def target_specs(tokens):
     res = []
     for j, t in enumerate(toks):
         res.append((j + 1, ("path", t)))
-        m = match_option(t) if kind(t) == "O" else None
-        if m and m[0] == "module":
-            if m[2] is not None:
-                res.append((j + 1, ("module", m[2])))
+        m = match_option(t, table) if kind(t, table) == "O" else None
+        if m and m[0].role == "module":
+            if m[3] is not None:
+                res.append((j + 1, ("module", m[3])))
             elif j + 1 < len(toks):
                 res.append((j + 2, ("module", toks[j + 1])))
+    return res
+
+
+def own_option_forms(table: Table, value: str = "x"):
+    """Every spelling of every own option as a token list, with its form name: [(form, [tokens])] in table order."""
+    res = []
+    for o in table.options:
+        if o.role != "own" or o.takes_value is None:
+            continue
+        if o.takes_value:
+            for s in o.shorts:
+                res.append((f"{s} V", [s, value]))
+            for s in o.longs:
+                res.append((f"{s} V", [s, value]))
+            for s in o.longs:
+                res.append((f"{s}=V", [f"{s}={value}"]))
+            for s in o.shorts:
+                res.append((f"{s}V", [f"{s}{value}"]))
+        else:
+            for s in o.strings:
+                res.append((s, [s]))
+    return res
+
+
+def module_forms(table: Table, value: str = "mod"):
+    res = []
+    for o in table.options:
+        if o.role != "module" or not o.takes_value:
+            continue
+        for s in o.strings:
+            res.append((f"{s} MOD", [s, value]))
+        for s in o.longs:
+            res.append((f"{s}=MOD", [f"{s}={value}"]))
+        for s in o.shorts:
+            res.append((f"{s}MOD", [f"{s}{value}"]))
     return res
